@@ -995,15 +995,28 @@ func seqHistory(h histSpec) {
 		return res
 	}
 	probe := u.probeOps(h.Kind)
+	readBack := func() *failure {
+		for _, p := range probe {
+			pr := u.apply(t, p)
+			if f := ref.judge(p, pr); f != nil {
+				return f
+			}
+		}
+		return nil
+	}
 	for i, o := range ops {
+		// every third operation: read the whole state back before and after; a difference that
+		// appears across a refused/failed operation is reported as such
+		sampled := i%3 == 0 || i == len(ops)-1
+		if sampled {
+			if f := readBack(); f != nil {
+				report(&failure{"state-" + f.sig, fmt.Sprintf("state read back before step %d: %s", i, f.msg)}, i)
+			}
+		}
 		res := exec(o, i)
-		if res.err != nil && (i%3 == 0 || i == len(ops)-1) {
-			// a refused or failed operation changes nothing: read the whole state back
-			for _, p := range probe {
-				res := u.apply(t, p)
-				if f := ref.judge(p, res); f != nil {
-					report(&failure{"failed-op-changed-state", fmt.Sprintf("after failed %s => %s: %s", o, errTok(res.err), f.msg)}, i)
-				}
+		if sampled && res.err != nil {
+			if f := readBack(); f != nil {
+				report(&failure{"failed-op-changed-state", fmt.Sprintf("after failed %s => %s: %s", o, res.tok, f.msg)}, i)
 			}
 		}
 	}
